@@ -35,6 +35,7 @@ type Proc struct {
 	open   bool // a (push 1) for the current path is outstanding
 	dead   bool
 	pmu    sync.Mutex // guards cmd against Interrupt from another goroutine
+	intr   atomic.Bool
 	// statistics
 	Queries  int
 	ByResult [3]int
@@ -90,6 +91,7 @@ func (p *Proc) start() error {
 func (p *Proc) Interrupt() {
 	p.pmu.Lock()
 	defer p.pmu.Unlock()
+	p.intr.Store(true)
 	if p.cmd != nil && p.cmd.Process != nil {
 		p.cmd.Process.Kill()
 	}
@@ -181,7 +183,17 @@ func (p *Proc) readResp(deadline time.Duration) (string, error) {
 }
 
 // Check decides sat(script ∧ extra...) with a timeout. If wantModel and sat, returns values for vars.
-func (p *Proc) Check(sc *Script, extra []string, timeout time.Duration, vars []*Term) (Result, Model, error) {
+func (p *Proc) Check(sc *Script, extra []string, timeout time.Duration, vars []*Term) (res Result, model Model, err error) {
+	p.intr.Store(false)
+	defer func() {
+		if p.intr.Load() {
+			// interrupted by the portfolio after another solver answered: not an error
+			if !p.dead {
+				p.Kill()
+			}
+			res, model, err = Unknown, nil, nil
+		}
+	}()
 	if p.cmd == nil || p.dead {
 		if p.cmd != nil {
 			p.Restarts++
@@ -229,7 +241,6 @@ func (p *Proc) Check(sc *Script, extra []string, timeout time.Duration, vars []*
 		p.ByResult[Unknown]++
 		return Unknown, nil, nil
 	}
-	var res Result
 	switch {
 	case resp == "sat":
 		res = Sat
@@ -244,7 +255,6 @@ func (p *Proc) Check(sc *Script, extra []string, timeout time.Duration, vars []*
 		return Unknown, nil, fmt.Errorf("solver %s: %s", p.Name, resp)
 	}
 	p.ByResult[res]++
-	var model Model
 	if res == Sat && len(vars) > 0 {
 		var q strings.Builder
 		q.WriteString("(get-value (")
